@@ -97,8 +97,8 @@ func (p *Parser) ParseSignedDataForUpdate(compactJWS string) (*model.UpdateSigne
 }
 
 func (p *Parser) validateUpdateRequest(update *model.UpdateRequest) error {
-	if update.DidSuffix == "" {
-		return errors.New("missing did suffix")
+	if err := p.validateDidSuffix(update.DidSuffix); err != nil {
+		return err
 	}
 
 	if update.SignedData == "" {
